@@ -474,7 +474,8 @@ def check_e6(ctx, rep):
     sub = type(rep)('C44')
     c44.check(ctx, sub)
     for f in sub.findings:
-        if f.rule in ('validate.user-component', 'validate.non-numeric', 'environ.host-refusal-is-ifc', 'environ.non-ascii-name'):
+        if f.rule in ('validate.user-component', 'validate.non-numeric', 'validate.component-count', 'environ.host-refusal-is-ifc', 'environ.non-ascii-name',
+                      'environ.statement', 'environ.empty-name'):
             rep.ob('E6.validating-host-call', f.construct, False, f.detail, f.where)
     rep.ob('E6.validating-host-call', 'datetime.datetime / os.environ arguments are validated or the call is protected (%d obligations from C44)' % sub.obligations,
            not sub.errors, '; '.join(sub.errors))
